@@ -65,9 +65,43 @@ func NewDisk(w *World) *Disk {
 	return d
 }
 
+// Cwd is the working directory of the simulated process: state of the whole process, shared
+// by every execution in it.
+func Cwd() string {
+	if w := W; w != nil {
+		if c, ok := w.Ext["cwd"].(string); ok {
+			return c
+		}
+	}
+	return "/cwd"
+}
+
+var cwdCell = new(int) // identity of the process-wide working directory for the access tracker
+
+// Chdir changes the working directory of the simulated process.
+func (d *Disk) Chdir(p string) error {
+	cp := clean(p)
+	n, ok := d.nodes[cp]
+	if !ok {
+		return perr("chdir", p, syscall.ENOENT)
+	}
+	if !n.dir {
+		return perr("chdir", p, syscall.ENOTDIR)
+	}
+	Access("os.Chdir", true, cwdCell, "process.working-directory")
+	d.w.Ext["cwd"] = cp
+	return nil
+}
+
+// Getwd reads it.
+func (d *Disk) Getwd() string {
+	Access("os.Getwd", false, cwdCell, "process.working-directory")
+	return Cwd()
+}
+
 func clean(p string) string {
 	if !strings.HasPrefix(p, "/") {
-		p = "/cwd/" + p
+		p = Cwd() + "/" + p
 	}
 	return path.Clean(p)
 }
@@ -248,17 +282,21 @@ type SimFile struct {
 	appendMode bool
 }
 
-// OpenLimit bounds the files one run may open (the largest generated project has a dozen):
+// OpenLimit bounds the SOURCE files (*.zn) one run may open (the largest generated project has a dozen):
 // a tree that loads modules without end — an import cycle it no longer recognises — ends in a
 // recoverable panic here long before its recursion has grown a dangerous stack.
 const OpenLimit = 3000
 
-const OpenPanic = "zsim: unbounded loading: more than 3000 files opened in one run"
+const OpenPanic = "zsim: unbounded loading: more than 3000 source files opened in one run"
 
 func (d *Disk) Open(p string) (*SimFile, error) {
 	d.Ops["open"]++
-	if d.Ops["open"] > OpenLimit {
-		panic(OpenPanic)
+	if strings.HasSuffix(p, ".zn") {
+		// (source files only: a program may legitimately read one data file thousands of times)
+		d.Ops["open-source"]++
+		if d.Ops["open-source"] > OpenLimit {
+			panic(OpenPanic)
+		}
 	}
 	cp := clean(p)
 	n, ok := d.nodes[cp]
